@@ -166,6 +166,9 @@ def run(ctx):
     # R-C12-6: L_c is counted on get_subgraph(community): that graph must hold every stored edge of the community once
     from props.c15 import subgraph_edge_source
 
+    from props.c09 import degrees_from_edge_lists
+
+    degrees_from_edge_lists(ctx, prog, flows, "R-C12-7", ("get_node_weighted_in_degree", "get_node_weighted_out_degree", "get_node_in_degree", "get_node_out_degree", "get_node_degree", "get_node_weighted_degree"), "the degree sums and m of the modularity formula count a bundle of parallel edges once (at its smallest weight) while L_c counts every edge")
     ctx.rule("R-C12-6", "the per-community edge term is counted on an induced subgraph whose candidate edges are the whole edge store")
     subgraph_edge_source(ctx, prog, flows, "R-C12-6", "the intra-community term L_c of the modularity under- or over-counts")
     ctx.rule("R-C12-5", "L_c is taken from the induced subgraph on every path: the variable that holds it has no constant definition")
